@@ -30,6 +30,19 @@ type Run struct {
 	Notes   []string
 	stats   map[string]int
 	alias   map[string]string // rule renaming for checks shared between properties
+	// borrow (see below): while a whole check of another property runs on behalf of this one,
+	// only the listed rules are kept, under the names given
+	borrowed map[string]string
+}
+
+// borrow runs the check of another property and keeps the obligations of the listed rules
+// (named as that check names them) under the given names of this property.  A necessary
+// condition shared by two properties is decided by one rule, not by two copies of it.
+func (r *Run) borrow(fn func(*Run), rules map[string]string) {
+	saveB, saveA, saveN, saveS := r.borrowed, r.alias, r.Notes, r.Samples
+	r.borrowed, r.alias = rules, nil
+	fn(r)
+	r.borrowed, r.alias, r.Notes, r.Samples = saveB, saveA, saveN, saveS
 }
 
 func (r *Run) pos(p token.Pos) string {
@@ -42,6 +55,13 @@ func (r *Run) pos(p token.Pos) string {
 func (r *Run) add(rule, construct string, p token.Pos, status, detail string) {
 	if a, ok := r.alias[rule]; ok {
 		rule = a
+	}
+	if r.borrowed != nil {
+		b, ok := r.borrowed[rule]
+		if !ok {
+			return
+		}
+		rule = b
 	}
 	if !strings.HasPrefix(rule, r.Prop) {
 		rule = r.Prop + "." + rule
